@@ -75,19 +75,24 @@ type fileSpec struct {
 
 type world struct {
 	env       *kernel.Env
+	idx       int
+	conc      string
 	kind      string
 	mediaType string
 	value     any
 	raw       []byte // reader payloads
 	rawStream *kernel.Stream
-	fields    []struct{ name string; values []string }
+	fields    []struct {
+		name   string
+		values []string
+	}
 	files     []*fileSpec
 	getBody   int
 	getBodies [][]byte
 	fault     bool
 }
 
-var nameAlphabet = []string{"a", "b", "up", ".txt", ".bin", "\"", "\\", "/", " ", ";", "=", "%", "é", "dir/", "x"}
+var nameAlphabet = []string{"a", "b", "up", ".txt", ".bin", "\"", "\\", "/", " ", ";", "=", "%", "é", "dir/", "x", "\u00a0", "\u202f", "\u200b", "日", "\t"}
 
 func genName(t *kernel.Tape) string {
 	n := 1 + t.Choose(4, "name-parts")
@@ -149,6 +154,7 @@ func genContent(t *kernel.Tape) []byte {
 }
 
 func (w *world) WriteToRequest(req runtime.ClientRequest, _ strfmt.Registry) error {
+	_ = req.SetHeaderParam("X-Up", fmt.Sprint(w.idx))
 	for _, f := range w.fields {
 		_ = req.SetFormParam(f.name, f.values...)
 	}
@@ -196,17 +202,14 @@ type xmlVal struct {
 	B       int      `xml:"b"`
 }
 
-func (prop) Run(t *testing.T, tape *kernel.Tape, sc kernel.Scenario) *kernel.Result {
-	env := kernel.NewEnv(tape)
-	res := &kernel.Result{}
-	w := &world{env: env}
-	kernel.DrawOrder(tape)
-	defer kernel.UninstallOrder()
-
+func genWorld(tape *kernel.Tape, env *kernel.Env, idx int) (*world, bool) {
+	w := &world{env: env, idx: idx}
+	pfx := fmt.Sprintf("c%d-", idx)
 	w.kind = []string{"files", "both", "form-multi", "form-url", "value", "reader", "readcloser", "none"}[tape.Choose(8, "kind")]
 	w.getBody = tape.Weighted("getbody", 3, 3, 2, 1)
 	useAuth := w.getBody > 0 || tape.Bool(3, "auth-without-getbody")
 	w.fault = tape.Bool(6, "source-fault?")
+	transient := w.fault && tape.Bool(2, "transient?")
 	switch w.kind {
 	case "files", "both", "form-multi":
 		w.mediaType = "multipart/form-data"
@@ -241,21 +244,31 @@ func (prop) Run(t *testing.T, tape *kernel.Tape, sc kernel.Scenario) *kernel.Res
 			for j := 0; j < nv; j++ {
 				vals = append(vals, string(tape.Bytes(tape.Choose(30, "fvlen"), []byte("ab&=+ %é\r\n\"-"), "fvbyte")))
 			}
-			w.fields = append(w.fields, struct{ name string; values []string }{name, vals})
+			w.fields = append(w.fields, struct {
+				name   string
+				values []string
+			}{name, vals})
 		}
+	}
+	setFault := func(st *kernel.Stream, data []byte, what string) {
+		off := tape.Choose(len(data)+1, "err-off")
+		if transient {
+			st.TransientErrAt = off
+			return
+		}
+		st.Data = data[:off]
+		st.Term = &kernel.InjectedError{What: what}
 	}
 	if w.kind == "reader" || w.kind == "readcloser" {
 		w.raw = genContent(tape)
-		w.rawStream = kernel.NewStream(env, "payload", w.raw)
+		w.rawStream = kernel.NewStream(env, pfx+"payload", w.raw)
 		w.rawStream.Tag = "source"
 		w.rawStream.ChunkMode = tape.Choose(4, "pchunk")
 		w.rawStream.FixedChunk = 1 + tape.Choose(700, "pfixed")
 		w.rawStream.ZeroReads = tape.Choose(3, "pzero")
 		w.rawStream.TermWithData = tape.Bool(2, "pwithdata")
 		if w.fault {
-			off := tape.Choose(len(w.raw)+1, "perr")
-			w.rawStream.Data = w.raw[:off]
-			w.rawStream.Term = &kernel.InjectedError{What: "payload read error"}
+			setFault(w.rawStream, w.raw, "payload read error")
 		}
 	}
 	if w.kind == "files" || w.kind == "both" {
@@ -263,10 +276,14 @@ func (prop) Run(t *testing.T, tape *kernel.Tape, sc kernel.Scenario) *kernel.Res
 		faultFile := tape.Choose(n, "fault-file")
 		for i := 0; i < n; i++ {
 			f := &fileSpec{field: []string{"file", "file", "doc", "fi\"le"}[tape.Choose(4, "ffield")], name: genName(tape), data: genContent(tape), errAt: -1}
+			// every upload carries its own identity in the first bytes (cross-talk is attributable)
+			if len(f.data) >= 8 {
+				copy(f.data, fmt.Sprintf("U%dF%d:", idx, i))
+			}
 			if tape.Bool(4, "declared-ct") {
 				f.ct = []string{"text/x-sim", "application/pdf", "image/png"}[tape.Choose(3, "ct")]
 			}
-			st := kernel.NewStream(env, fmt.Sprintf("file%d", i), f.data)
+			st := kernel.NewStream(env, fmt.Sprintf("%sfile%d", pfx, i), f.data)
 			st.Tag = "source"
 			st.ChunkMode = tape.Choose(4, "fchunk")
 			st.FixedChunk = 1 + tape.Choose(700, "ffixed")
@@ -276,23 +293,52 @@ func (prop) Run(t *testing.T, tape *kernel.Tape, sc kernel.Scenario) *kernel.Res
 			st.ZeroReads = tape.Choose(3, "fzero")
 			st.TermWithData = tape.Bool(2, "fwithdata")
 			if w.fault && i == faultFile {
-				f.errAt = tape.Choose(len(f.data)+1, "ferr")
-				st.Data = f.data[:f.errAt]
-				st.Term = &kernel.InjectedError{What: "file read error"}
+				setFault(st, f.data, "file read error")
 			}
 			f.st = st
 			w.files = append(w.files, f)
 		}
 	}
-	res.Summary = w.summary()
+	return w, useAuth
+}
 
-	var (
-		submitErr   error
-		submitPanic string
-		tr          *simhttp.SimTransport
-	)
+func (w *world) sourceFailed() bool {
+	for _, f := range w.files {
+		if (f.st.TermDelivered && f.st.Term != nil) || f.st.TransientDelivered {
+			return true
+		}
+	}
+	if w.rawStream != nil && ((w.rawStream.TermDelivered && w.rawStream.Term != nil) || w.rawStream.TransientDelivered) {
+		return true
+	}
+	return false
+}
+
+func (prop) Run(t *testing.T, tape *kernel.Tape, sc kernel.Scenario) *kernel.Result {
+	env := kernel.NewEnv(tape)
+	res := &kernel.Result{}
+	kernel.DrawOrder(tape)
+	defer kernel.UninstallOrder()
+
+	// 1..3 uploads in flight at once on ONE Runtime (each call has its own request state)
+	ncalls := 1 + tape.Weighted("concurrent-calls", 3, 1, 1)
+	worlds := make([]*world, ncalls)
+	auths := make([]bool, ncalls)
+	var sums []string
+	for i := range worlds {
+		worlds[i], auths[i] = genWorld(tape, env, i)
+		sums = append(sums, worlds[i].summary())
+	}
+	res.Summary = strings.Join(sums, " || ")
+	if ncalls > 1 {
+		env.Fault("concurrent-calls")
+	}
+
+	submitErr := make([]error, ncalls)
+	submitPanic := make([]string, ncalls)
+	var tr *simhttp.SimTransport
 	kernel.RunBubble(t, env, func(k *kernel.K1) {
-		k.MaxSteps = 60000
+		k.MaxSteps = 120000
 		tr = &simhttp.SimTransport{Env: env, Name: "net", Now: k.Now}
 		pull, pullFixed := tape.Choose(4, "pull"), 1+tape.Choose(900, "pullfixed")
 		tr.PlanFor = func(int, *http.Request) *simhttp.Plan {
@@ -303,16 +349,19 @@ func (prop) Run(t *testing.T, tape *kernel.Tape, sc kernel.Scenario) *kernel.Res
 		}
 		rt := client.New("sim.local", "/", []string{"http"})
 		rt.Transport = tr
-		op := &runtime.ClientOperation{ID: "send", Method: "POST", PathPattern: "/send", Schemes: []string{"http"},
-			ConsumesMediaTypes: []string{w.mediaType}, ProducesMediaTypes: []string{"application/json"},
-			Params: w,
-			Reader: runtime.ClientResponseReaderFunc(func(r runtime.ClientResponse, _ runtime.Consumer) (any, error) { return r.Code(), nil })}
-		if useAuth {
-			op.AuthInfo = w
+		for i := range worlds {
+			i, w := i, worlds[i]
+			op := &runtime.ClientOperation{ID: "send", Method: "POST", PathPattern: "/send", Schemes: []string{"http"},
+				ConsumesMediaTypes: []string{w.mediaType}, ProducesMediaTypes: []string{"application/json"},
+				Params: w,
+				Reader: runtime.ClientResponseReaderFunc(func(r runtime.ClientResponse, _ runtime.Consumer) (any, error) { return r.Code(), nil })}
+			if auths[i] {
+				op.AuthInfo = w
+			}
+			k.Go(fmt.Sprintf("caller%d", i), func() {
+				submitPanic[i] = kernel.Catch(func() { _, submitErr[i] = rt.Submit(op) })
+			})
 		}
-		k.Go("caller", func() {
-			submitPanic = kernel.Catch(func() { _, submitErr = rt.Submit(op) })
-		})
 		k.Run()
 		if !k.Stuck && !k.Overrun {
 			k.SettleAll()
@@ -325,48 +374,47 @@ func (prop) Run(t *testing.T, tape *kernel.Tape, sc kernel.Scenario) *kernel.Res
 		res.FromEnv(env)
 		return res
 	}
-	if submitPanic != "" {
-		env.Violate("C11/panic", w.kind, "Submit panicked: %s", submitPanic)
-		res.FromEnv(env)
-		return res
-	}
-	sourceErr := false
-	for _, f := range w.files {
-		if f.st.TermDelivered && f.st.Term != nil {
-			sourceErr = true
+	byCall := map[string]*simhttp.Exchange{}
+	for _, ex := range tr.Exchanges {
+		id := ex.Header.Get("X-Up")
+		if _, dup := byCall[id]; dup {
+			env.Violate("C11/exchanges", "duplicate", "two exchanges for call %s", id)
 		}
+		byCall[id] = ex
 	}
-	if w.rawStream != nil && w.rawStream.TermDelivered && w.rawStream.Term != nil {
-		sourceErr = true
+	conc := ""
+	if ncalls > 1 {
+		conc = ":concurrent"
 	}
-	if sourceErr {
-		// fault-injecting twin: only "never a success" is required here (the rest is C12's)
-		if submitErr == nil {
-			env.Violate("C11/success-with-failed-source", w.kind, "an upload source failed and Submit reported success")
+	for i, w := range worlds {
+		switch {
+		case submitPanic[i] != "":
+			env.Violate("C11/panic", w.kind, "Submit panicked: %s", submitPanic[i])
+		case w.sourceFailed():
+			// fault-injecting twin: only "never a success" is required here (the rest is C12's)
+			if submitErr[i] == nil {
+				env.Violate("C11/success-with-failed-source", w.kind, "an upload source failed (call %d) and Submit reported success", i)
+			}
+		case submitErr[i] != nil:
+			env.Violate("C11/unexpected-error", w.kind, "no fault injected, Submit %d failed: %v", i, submitErr[i])
+		default:
+			ex := byCall[fmt.Sprint(i)]
+			if ex == nil {
+				env.Violate("C11/exchanges", w.kind, "no exchange for call %d", i)
+				continue
+			}
+			w.conc = conc
+			w.checkBody(ex)
+			for j, gb := range w.getBodies {
+				if !bytes.Equal(gb, ex.ReqBody) {
+					env.Violate("C11/getbody-differs", fmt.Sprintf("%s:call=%d", w.kind, min(j+1, 2)), "GetBody call %d returned %d bytes that are not the %d bytes sent (first difference at %d)", j+1, len(gb), len(ex.ReqBody), firstDiff(gb, ex.ReqBody))
+					break
+				}
+			}
+			if w.getBody >= 2 && (w.kind == "files" || w.kind == "both" || w.kind == "form-multi" || w.kind == "reader" || w.kind == "readcloser") {
+				env.Probe("getbody-twice-on-streaming-body")
+			}
 		}
-		res.FromEnv(env)
-		return res
-	}
-	if submitErr != nil {
-		env.Violate("C11/unexpected-error", w.kind, "no fault injected, Submit failed: %v", submitErr)
-		res.FromEnv(env)
-		return res
-	}
-	if len(tr.Exchanges) != 1 {
-		env.Violate("C11/exchanges", w.kind, "%d exchanges", len(tr.Exchanges))
-		res.FromEnv(env)
-		return res
-	}
-	ex := tr.Exchanges[0]
-	w.checkBody(ex)
-	for i, gb := range w.getBodies {
-		if !bytes.Equal(gb, ex.ReqBody) {
-			env.Violate("C11/getbody-differs", fmt.Sprintf("%s:call=%d", w.kind, min(i+1, 2)), "GetBody call %d returned %d bytes that are not the %d bytes sent (first difference at %d)", i+1, len(gb), len(ex.ReqBody), firstDiff(gb, ex.ReqBody))
-			break
-		}
-	}
-	if w.getBody >= 2 && (w.kind == "files" || w.kind == "both" || w.kind == "form-multi" || w.kind == "reader" || w.kind == "readcloser") {
-		env.Probe("getbody-twice-on-streaming-body")
 	}
 	res.FromEnv(env)
 	return res
@@ -514,7 +562,7 @@ func (w *world) checkBody(ex *simhttp.Exchange) {
 					what += ":first-read-short"
 				}
 			}
-			env.Violate("C11/parts-differ", "multipart:"+what, "part %d differs\n sent: %v\n want: %v", i, g, x)
+			env.Violate("C11/parts-differ", "multipart:"+what+w.conc, "part %d differs\n sent: %v\n want: %v", i, g, x)
 			return
 		}
 	}
